@@ -15,6 +15,7 @@ def dispatch (cmd : String) (args : List String) : Option String :=
   match cmd with
   | "parse" => Driver.handleParse args
   | "match" => Driver.handleMatch args
+  | "segstarts" => Driver.handleSegStarts args
   | "spec" => Driver.handleSpec args
   | "tidy" => Driver.handleTidy args
   | "pspec" => Driver.handlePSpec args
